@@ -467,6 +467,19 @@ class H:
                     raise e
 
                 c.add_teardown_callback(own_cb)
+            if t.get("own_td") is not None:
+                # a teardown callback of the task's own context that takes a while: the
+                # task has not ended before its context has been torn down
+
+                async def own_slow() -> None:
+                    sim.log("task_td_start", tf=fid, task=tid)
+                    try:
+                        with CancelScope(shield=True):
+                            await sim.pause(0, t["own_td"])
+                    finally:
+                        sim.log("task_td_end", tf=fid, task=tid)
+
+                c.add_teardown_callback(own_slow)
             try:
                 if t.get("started_delay") is not None and task_status is not None:
                     await sim.pause(0, t["started_delay"])
@@ -925,7 +938,7 @@ def oracle(sim: Sim, plan: dict) -> list[dict]:
             tfs[d["tf"]]["started_view"] = d["owner_view"]
         elif k == "spawn_begin":
             tasks[d["task"]] = {"tf": d["tf"], "begin": r, "how": d["how"]}
-        elif k in ("spawn_end", "task_start", "task_end", "task_cancelled", "task_started", "task_p", "task_td_raise") and d.get("task") in tasks:
+        elif k in ("spawn_end", "task_start", "task_end", "task_cancelled", "task_started", "task_p", "task_td_raise", "task_td_start", "task_td_end") and d.get("task") in tasks:
             tasks[d["task"]].setdefault(k, []).append(r)
         elif k in ("hcancel", "hwait_begin", "hwait_end") and d.get("task") in tasks:
             tasks[d["task"]].setdefault(k, []).append(r)
@@ -992,6 +1005,12 @@ def oracle(sim: Sim, plan: dict) -> list[dict]:
                     continue  # cancelled before it ever ran: nothing to compare
                 v("C09.wait", "returned_without_end", f"wait_finished() of {tid} returned but the task never ended")
             else:
+                tde = (t.get("task_td_end") or [None])[0]
+                if tde is not None:
+                    # (the task's own context is part of the task: it ends when that is torn down)
+                    if we[0] < tde[0]:
+                        v("C09.wait", "early_context_teardown", f"wait_finished() of {tid} returned while the task's own context was still being torn down")
+                    te = tde
                 if we[0] < te[0]:
                     v("C09.wait", "early", f"wait_finished() of {tid} returned before the task ended")
                 elif abs(we[2] - max(te[2], wb[2])) > 1e-9 and not (cancel_seq is not None):
@@ -1281,6 +1300,8 @@ class G:
             t["sync_part"] = True
         if "end" not in t and rng.random() < 0.12:
             t["own_td_raise"] = pick(rng, {"SimError": 3, "SimLookup": 1})
+        elif rng.random() < 0.15:
+            t["own_td"] = rng.choice(DTS[1:5])
         return t
 
     def spawn(self) -> list:
